@@ -33,12 +33,15 @@ LEVEL_TEXT = ("Proof: placement <=> F_(k-1) <= r < F_k on non-decreasing weights
               "count and no event in a zero-rate bin for EVERY seed (poisson_test_seeded_total), the seeded binary / Brier and L "
               "tests satisfy their count clauses whenever they return, and a whole session of calls on the global generator is "
               "deterministic from the first seeded call on (session_deterministic_after_seed). The seeded public tests are compared "
-              "with the model given NOTHING but rates, observed counts and the seed.")
+              "with the model given NOTHING but rates, observed counts and the seed. Round 6 prep: the L-test count clause is proved "
+              "for ANY sampler of the number of events (l_test_seeded_spec_any_sampler), and numpy's PTRS Poisson sampler (means >= 10, "
+              "Float layer, executable only) is in the model, so the seeded L-test is compared from the seed alone for every mean.")
 LEVEL_NOTE = ("Modelled: weights (Soft64), binary search, add.at, count assertion, rejection loop, quantile, seed handling, MT19937 + "
               "random_sample + Poisson(mean<10, exp(-mean) supplied). Trusted: Soft64 = binary64 (validated every run), the model of "
               "numpy's generator and binary search (validated bit for bit against numpy every run: c06_mt, c06_bsearch on unsorted "
-              "arrays; a disagreement is reported and the seed-only correspondence skipped, never a verdict), numpy's PTRS Poisson "
-              "sampler for means >= 10 (the draw stays an input), libm exp, the test statistics (C05/C16; they enter through the "
+              "arrays; a disagreement is reported and the seed-only correspondence skipped, never a verdict), numpy's Poisson samplers "
+              "(multiplication method and PTRS with its own log-gamma, Float layer: validated against RandomState.poisson every run), "
+              "libm exp / log / sqrt, the test statistics (C05/C16; they enter through the "
               "quantile and through the harness-level reference statistic of the public-path oracle).")
 DESIGN_REF = "DESIGN.md §4 C06"
 TECHNIQUE = "Lean 4 model (Soft64 binary64 on Rat + exact lists) with kernel-checked theorems; differential correspondence + exact oracle"
@@ -63,7 +66,8 @@ THEOREMS = ["Sampler.place_iff", "Sampler.last_weight_is_one", "Sampler.weights_
             "SamplerSearch.bsearch_never_zero_rate_in_range",
             "SamplerRng.nextDouble_dyadic", "SamplerRng.uniform_unit_interval", "SamplerRng.uniform_is_float64",
             "SamplerRng.rand_spec", "SamplerRng.rowsFrom_spec", "SamplerRng.poisson_test_seeded_total",
-            "SamplerRng.binary_test_seeded_spec", "SamplerRng.l_test_seeded_spec", "SamplerRng.seeded_call_ignores_ambient",
+            "SamplerRng.binary_test_seeded_spec", "SamplerRng.l_test_seeded_spec", "SamplerRng.l_test_seeded_spec_any_sampler",
+            "SamplerRng.seeded_call_ignores_ambient",
             "SamplerRng.session_deterministic_after_seed"]
 TRUSTED = ["Lean 4.33 kernel", "axioms: propext, Classical.choice, Quot.sound at most",
            "Soft64.fl64 is IEEE-754 binary64 round-to-nearest-even and numpy + / cumsum on float64 are that arithmetic "
@@ -71,7 +75,8 @@ TRUSTED = ["Lean 4.33 kernel", "axioms: propext, Classical.choice, Quot.sound at
            "numpy.searchsorted(side='right') runs the branch-free binary search of Model/SamplerSearch.lean (identified and re-validated on "
            "unsorted arrays every run); numpy.add.at adds 1 per index",
            "numpy.random legacy global generator = MT19937 with init_genrand seeding and 53-bit doubles as in Model/SamplerRng.lean "
-           "(validated bit for bit every run); Poisson draws for means >= 10 (PTRS) and libm exp are inputs",
+           "(validated bit for bit every run); the Poisson samplers of Model/SamplerRng.lean `poissonFloat` (PTRS from mean 10 on) are "
+           "validated against RandomState.poisson every run; libm exp / log / sqrt",
            "harness/c06.py generators, wrappers and comparison; driver parsing (Proto.lean)"]
 RULE = ("rate vectors of 1..40 bins (1-D and 2-D) with leading / trailing / interior zeros, values 10^U(-12,3), decimal "
         "and equal rates; draws = 0, the smallest subnormal, every cumulative boundary and its two neighbours, midpoints, "
@@ -89,7 +94,11 @@ RULE = ("rate vectors of 1..40 bins (1-D and 2-D) with leading / trailing / inte
         "from the case), every draw of the global generator logged (pass-through) so that the numbers are attributed to the simulations "
         "whatever the order / batching / entry point (uniform, random, random_sample, rand ...), public-path oracle: every entry of "
         "the returned distribution is the documented statistic of the inverse-CDF placement of its simulation's numbers (no private "
-        "hook needed), finite simulated log-likelihoods (no event in a zero-rate bin). A case is non-trivial when a draw "
+        "hook needed), finite simulated log-likelihoods (no event in a zero-rate bin); round 6 prep: zero rates spelled -0.0, subnormal "
+        "rates, rates beyond 2^53, 129 / 257 bins for every driver in every run and 127..257 bins / events at random, public keyword "
+        "arguments handed over positionally (order of the current signature), observed catalog as UCERF3Catalog (big-endian rows), "
+        "array-level functions with their default verbose, caller-owned arrays (forecast array and the array it was built from, "
+        "observed array / catalog rows, injected numbers, weights) byte-identical after every call. A case is non-trivial when a draw "
         "sits on or next to a cumulative boundary, a zero-rate bin exists, or a simulated statistic lies within 1e-4 "
         "relative of the observed one; distinct by (kind, rates, draws)")
 
@@ -335,7 +344,8 @@ def capture(mod):
 
 # ----------------------------------------------------------------------------- generators
 def gen_rates(rng, n, force_zero=None):
-    style = rng.choice(["decades", "decades", "uniform", "decimal", "equal", "tiny-tail", "integers", "subeps", "subeps"])
+    style = rng.choice(["decades", "decades", "uniform", "decimal", "equal", "tiny-tail", "integers", "subeps", "subeps", "subnormal",
+                        "huge"])
     out = []
     for i in range(n):
         if style == "decades":
@@ -353,6 +363,12 @@ def gen_rates(rng, n, force_zero=None):
             # next to ordinary rates
             v = rng.choice([10.0 ** rng.uniform(-1, 1), 10.0 ** rng.uniform(-13, -8), 10.0 ** rng.uniform(-13, -8), 1e-8, 1e-9,
                             10.0 ** rng.uniform(-300, -13)])
+        elif style == "subnormal":
+            # subnormal rates (multiples of 5e-324 below 2.2e-308) next to ordinary ones
+            v = rng.choice([10.0 ** rng.uniform(-2, 1), rng.randint(1, 2 ** 40) * 5e-324, 5e-324, 2.2250738585072014e-308])
+        elif style == "huge":
+            # rates beyond 2^53 next to small ones (their float cumulative sum absorbs everything below half an ulp)
+            v = rng.choice([10.0 ** rng.uniform(15.96, 18), float(2 ** 53), float(2 ** 53 + 2), 10.0 ** rng.uniform(-3, 2), 1.0])
         else:
             v = 10.0 ** rng.uniform(-1, 1) if i < max(1, n // 2) else 10.0 ** rng.uniform(-17, -13)
         out.append(v)
@@ -369,23 +385,58 @@ def gen_rates(rng, n, force_zero=None):
                 out[i] = 0.0
     if not any(v > 0 for v in out):
         out[rng.randrange(n)] = 10.0 ** rng.uniform(-3, 1)
+    if rng.random() < 0.25:
+        out = [(-0.0 if v == 0.0 else v) for v in out]          # a zero rate spelled as NEGATIVE zero
     return out, style
 
 
+PRECISION = dict(single=False, dt=float)
+LOW = {"float32": numpy.float32, "float16": numpy.float16}
+
+
+def set_precision(case):
+    """low-precision forecasts (rate array of dtype float32 / float16): the library keeps the dtype, so cumulative rates and weights
+    are numbers of that type; the reference weights are then computed the same way and tolerances are those of that precision"""
+    PRECISION["dt"] = LOW.get(case.get("rdtype"), float)
+    PRECISION["single"] = PRECISION["dt"] is not float
+    return PRECISION["single"]
+
+
+def _eps():
+    return float(numpy.finfo(PRECISION["dt"]).eps)
+
+
+def wtol(n):
+    """how far sampling weights may be from the reference cumulative rates and still count as the cumulative rates up to rounding"""
+    return (_eps() * max(n, 8) + 8 * _eps()) if PRECISION["single"] else 1e-9
+
+
+def stat_tol():
+    return 200 * _eps() if PRECISION["single"] else 1e-9
+
+
 def ref_weights(rates, masked):
-    r = numpy.array(rates, dtype=float)
+    dt = PRECISION["dt"]
+    r = numpy.array(rates, dtype=dt)
     if masked:
-        r = numpy.where(r <= 0, 0.0, r)
+        r = numpy.where(r <= 0, dt(0.0), r).astype(dt)
     c = numpy.cumsum(r)
-    return c / c[-1]
+    with numpy.errstate(all="ignore"):
+        return (c / c[-1]).astype(float)
 
 
 def boundary_draws(w):
     """candidate draws in [0,1): boundaries, their neighbours, midpoints, extremes"""
-    c = [0.0, 5e-324, ONE_MINUS, 0.5]
+    c = [0.0, 5e-324, ONE_MINUS, 0.5, 1.0 - 2.0 ** -25, 1.0 - 2.0 ** -26, 1.0 - 2.0 ** -12, float(numpy.nextafter(numpy.float32(1.0), numpy.float32(0.0)))]
     prev = 0.0
     for x in sorted(set(float(v) for v in w)):
-        for v in (x, numpy.nextafter(x, -1.0), numpy.nextafter(x, 2.0), (prev + x) / 2):
+        low = []
+        for dt in (numpy.float32, numpy.float16):
+            # one ulp of the lower precision away, and LESS THAN HALF such an ulp away (rounds onto the boundary in that precision)
+            u = float(numpy.spacing(dt(x)))
+            low += [float(numpy.nextafter(dt(x), dt(-1.0))), float(numpy.nextafter(dt(x), dt(2.0))), x - 0.4 * u, x + 0.4 * u,
+                    x - 0.01 * u]
+        for v in [x, numpy.nextafter(x, -1.0), numpy.nextafter(x, 2.0), (prev + x) / 2] + low:
             v = float(v)
             if 0.0 <= v < 1.0:
                 c.append(v)
@@ -421,7 +472,7 @@ def oracle_call(rates, masked, call, expect_n, binary_loop=False):
     if any(W[i] > W[i + 1] for i in range(len(W) - 1)):
         return "sampling weights decrease"
     ref = ref_weights(rates, masked)
-    if any(abs(float(a) - float(b)) > 1e-9 * max(abs(float(b)), 1e-300) + 1e-15 for a, b in zip(w, ref)):
+    if any(abs(float(a) - float(b)) > wtol(len(ref)) * max(abs(float(b)), 1e-300) + 1e-15 for a, b in zip(w, ref)):
         return ("sampling weights are not the normalised cumulative rates of this forecast (beyond rounding): "
                 f"{[float(x) for x in w][:6]} vs {[float(x) for x in ref][:6]}")
     if n != expect_n:
@@ -530,6 +581,7 @@ def do_array(run, drv, pending, case):
     stream = None if case.get("stream") is None else unhx(case["stream"])
     nsim = case["nsim"]
     expect_n = sum(obs) if module == "poisson" else n_active(obs)
+    set_precision(case)
     w_ref = ref_weights(rates, masked)
     nontriv = (tuple(case["rates"]), json.dumps(case.get("rows") or case.get("stream"))) if (
         any(v <= 0 for v in rates) or is_boundary_case(w_ref, rows or [stream or []])) else None
@@ -538,14 +590,20 @@ def do_array(run, drv, pending, case):
     # D10 / D10b: structural detection, the implementation is never called without injected numbers
     if masked and infeasible(run, case, rates, expect_n):
         if rows is None:
-            i = drv.ask(f"c06_rejm {flist(rates)} {expect_n} {flist(stream)}")
-            pending.append(("d10", case, i, None))
+            if not PRECISION["single"]:
+                i = drv.ask(f"c06_rejm {flist(rates)} {expect_n} {flist(stream)}")
+                pending.append(("d10", case, i, None))
             return
         # with injected numbers the call is safe (no loop): fall through
     # round 4: the same numbers in another memory layout / dtype (the tests flatten with .ravel(): logical C order)
     F = numpy.array(rates, dtype=float).reshape(shape)
     if case.get("rdtype") == "int64" and all(float(v).is_integer() for v in rates):
         F = F.astype(numpy.int64)
+    if case.get("rdtype") in LOW:
+        F = F.astype(LOW[case["rdtype"]])
+        if not numpy.array_equal(F.astype(float).ravel(), numpy.array(rates)):
+            raise RuntimeError("low-precision case with rates that are not values of that precision")
+        run.count(f"low-precision-forecast:array:{case['rdtype']}")
     F = with_layout(F, case.get("layout", "C"))
     O = with_layout(numpy.array(obs, dtype=float if case.get("odtype", "float") == "float" else numpy.int64).reshape(shape),
                     case.get("olayout", "C"))
@@ -556,6 +614,9 @@ def do_array(run, drv, pending, case):
     fn = dict(poisson="_poisson_likelihood_test", binary="_binary_likelihood_test", brier="_brier_score_test")[module]
     kw = dict(num_simulations=numpy.int64(nsim) if case.get("nsim_form") == "numpy.int64" else nsim, random_numbers=R, seed=None,
               verbose=False)
+    if case.get("verbose_form") == "default":
+        del kw["verbose"]                     # the array-level functions print progress by default (every 100 simulations)
+    owned = snap(F, O, R)
     if module != "brier":
         kw.update(use_observed_counts=True, normalize_likelihood=bool(case.get("normalize", False)))
     exc, res, consumed = None, None, None
@@ -579,6 +640,10 @@ def do_array(run, drv, pending, case):
         except Exception as e:
             exc = type(e).__name__
     hook_check(run, rec, len(rates), module)
+    touched = changed(owned, ["forecast array", "observed array", "injected random numbers"], F, O, R)
+    if touched:
+        run.oracle_failure(case, f"{fn} modified the caller's {touched} (a later call on the same arrays no longer sees the same "
+                                 "forecast / catalog / numbers)")
     if exc == "exhausted":
         run.count("stream-exhausted")
     elif exc is not None:
@@ -675,6 +740,8 @@ def ask_on_impl_weights(drv, pending, case, call):
 
 def weights_bitexact(rates, masked, rec):
     """the implementation's sampling weights are the reference float computation (cumsum, division by the last element)"""
+    if PRECISION["single"]:
+        return False              # the Lean weights are the float64 computation; a float32 forecast is judged on its own weights
     ref = ref_weights(rates, masked)
     ws = [r[1] for r in rec] + ([rec.partial_w] if getattr(rec, "partial_w", None) is not None else [])
     return all(len(w) == len(ref) and all(bits(a) == bits(b) for a, b in zip(w, ref)) for w in ws)
@@ -808,15 +875,28 @@ def flush(run, drv, pending):
     pending.clear()
 
 
-def gen_array_case(rng, tier, module=None, want_d10=False):
+def gen_array_case(rng, tier, module=None, want_d10=False, force_n=None):
     module = module or rng.choice(["poisson", "poisson", "binary", "brier"])
     masked = module != "poisson"
     n = rng.choice([1, 2, 3, 4, 5, 6, 8, 12, 20, 40])
+    if force_n:
+        n = force_n
+    elif not want_d10 and rng.random() < 0.02:
+        n = rng.choice([7, 8, 9, 127, 128, 129, 130, 136, 256, 257])      # block boundaries of numpy's pairwise summation
     two_d = n >= 4 and n % 2 == 0 and rng.random() < 0.5
     shape = [n // 2, 2] if two_d else [n]
     if module == "brier" and not two_d:
         shape = [n, 1]
     rates, style = gen_rates(rng, n)
+    single = (not want_d10) and style not in ("subnormal", "huge", "integers") and rng.random() < 0.15
+    lowdt = None
+    if single:
+        # a LOW-PRECISION forecast: the rates are float32 (float16: only styles inside its range) numbers, the library's weights keep the dtype
+        lowdt = "float16" if style in ("uniform", "decimal", "equal") and rng.random() < 0.4 else "float32"
+        rates = [float(LOW[lowdt](v)) for v in rates]
+        if not any(v > 0 for v in rates):
+            rates[0] = 0.5
+    set_precision(dict(rdtype=lowdt))
     nsim = rng.randint(1, 5)
     pos = [i for i, v in enumerate(rates) if v > 0]
     obs = [0] * n
@@ -852,7 +932,7 @@ def gen_array_case(rng, tier, module=None, want_d10=False):
             obs[i] = rng.randint(1, 3)
     else:
         if module == "poisson":
-            ntot = rng.choice([0, 1, 2, 3, 5, 8, 12])
+            ntot = rng.choice([0, 1, 2, 3, 5, 8, 12] + ([127, 128, 129, 255, 256, 257, 600] if rng.random() < 0.04 else []))
             for _ in range(ntot):
                 obs[rng.randrange(n)] += 1
         else:
@@ -872,12 +952,13 @@ def gen_array_case(rng, tier, module=None, want_d10=False):
         case["layout"] = rng.choice(["C", "C", "F", "T", "slice", "rev"])
         case["olayout"] = rng.choice(["C", "C", "C", "F", "T"])
     case["odtype"] = rng.choice(["float", "float", "int"])
-    case["rdtype"] = "int64" if style == "integers" and rng.random() < 0.6 else "float64"
+    case["rdtype"] = lowdt if single else ("int64" if style == "integers" and rng.random() < 0.6 else "float64")
     if injected:
         case["rows"] = [hx(gen_row(rng, cands, ev)) for _ in range(nsim)]
         case["stream"] = None
         case["rnlayout"] = rng.choice(["C", "C", "F", "strided"])
         case["nsim_form"] = rng.choice(["int", "int", "numpy.int64"])
+        case["verbose_form"] = rng.choice(["False", "False", "default"])
     else:
         # a stream that lets the loop finish: boundary-directed numbers first, then the lower end of every
         # positive cell (guarantees termination when feasible), then random numbers
@@ -1002,13 +1083,24 @@ def build_public(case):
     origins = numpy.array([[0.1 * i, 0.1 * j] for j in range(ny) for i in range(nx)])
     mags = numpy.array([4.0 + k for k in range(nm)])
     region = CartesianGrid2D.from_origins(origins, dh=0.1, magnitudes=mags)
-    rates = numpy.array(unhx(case["rates"]), dtype=float).reshape(nx * ny, nm)
+    rates = numpy.array(unhx(case["rates"]), dtype=LOW.get(case.get("rdtype"), float)).reshape(nx * ny, nm)
+    if case.get("rdtype") == "int64":
+        rates = rates.astype(numpy.int64)
     fore = GriddedForecast(data=rates, region=region, magnitudes=mags, name="f")
     ev = []
     for t, (cell, mb) in enumerate(case["events"]):
         lon, lat = origins[cell][0] + 0.05, origins[cell][1] + 0.05
         ev.append((str(t), 1000 * t, lat, lon, 10.0, 4.5 + mb))
-    cat = CSEPCatalog(data=ev, region=region, name="c")
+    if case.get("cat_class") == "UCERF3Catalog":
+        # the other concrete catalog class (big-endian structured rows with further columns)
+        from csep.core.catalogs import UCERF3Catalog
+        a = numpy.zeros(len(ev), dtype=UCERF3Catalog._get_catalog_dtype(3))
+        for k, e in enumerate(ev):
+            a[k]["origin_time"], a[k]["latitude"], a[k]["longitude"], a[k]["depth"], a[k]["magnitude"] = e[1], e[2], e[3], e[4], e[5]
+        cat = UCERF3Catalog(data=a, region=region, name="c")
+    else:
+        cat = CSEPCatalog(data=ev, region=region, name="c")
+    fore.c06_source_array = rates             # the caller's own array the forecast was built from
     return fore, cat
 
 
@@ -1033,6 +1125,46 @@ def public_inputs(case, fore, cat):
     else:
         F, O = fore.magnitude_counts(), cat.magnitude_counts()
     return numpy.asarray(F, dtype=float).ravel(), numpy.asarray(O, dtype=float).ravel()
+
+
+def call_form(f, args, kw, form):
+    """call `f(*args, **kw)` - or, form 'positional', the same call with the keyword arguments handed over POSITIONALLY in the
+    order of the function's current signature (defaults filled in between); falls back to the keyword call when that is not
+    possible (keyword-only parameters, *args)"""
+    if form != "positional":
+        return f(*args, **kw)
+    import inspect
+    try:
+        params = list(inspect.signature(f).parameters.values())
+    except (TypeError, ValueError):
+        return f(*args, **kw)
+    out, rest = list(args), dict(kw)
+    for p in params[len(args):]:
+        if not rest:
+            break
+        if p.kind not in (p.POSITIONAL_ONLY, p.POSITIONAL_OR_KEYWORD):
+            return f(*args, **kw)
+        if p.name in rest:
+            out.append(rest.pop(p.name))
+        elif p.default is not inspect.Parameter.empty:
+            out.append(p.default)
+        else:
+            return f(*args, **kw)
+    return f(*out, **rest)
+
+
+def snap(*arrays):
+    """bytes of the caller-owned arrays handed to a call (None entries allowed)"""
+    return [None if a is None else (numpy.asarray(a).shape, str(numpy.asarray(a).dtype), numpy.ascontiguousarray(a).tobytes())
+            for a in arrays]
+
+
+def changed(before, names, *arrays):
+    after = snap(*arrays)
+    for b, a, nm in zip(before, after, names):
+        if b != a:
+            return nm
+    return None
 
 
 def seed_arg(case):
@@ -1079,6 +1211,8 @@ def do_public(run, drv, pending, case):
     mods = _mods()
     module, view, conditional = PUBLIC[case["test"]]
     mod = mods[module]
+    if set_precision(case):
+        run.count("single-precision-forecast:public")
     fore, cat = build_public(case)
     # history on the SAME forecast / catalog objects before the checked call: other tests (their results are not looked at
     # here), scale() calls; the checked call must behave like a first call on objects in the state they are in now
@@ -1145,11 +1279,18 @@ def do_public(run, drv, pending, case):
     kw = {}
     if case.get("verbose"):
         kw["verbose"] = True          # the progress-printing branch (every 100 simulations)
+    owned_names = ["array the forecast was built from", "forecast data", "catalog rows", "injected random numbers"]
+    owned = snap(fore.c06_source_array, fore.data, cat.catalog, R)
+    if case.get("call_form") == "positional":
+        run.count("public-call-positional")
+    if case.get("cat_class"):
+        run.count(f"observed-catalog-class-{case['cat_class']}")
     with capture(mod) as rec:
         try:
             numpy.random.seed(case.get("ambient", 12345))
             with capped_uniform(), contextlib.redirect_stdout(io.StringIO()):
-                res = fn(fore, cat, num_simulations=nsim, seed=seed_arg(case), random_numbers=R, **kw)
+                res = call_form(fn, (fore, cat), dict(num_simulations=nsim, seed=seed_arg(case), random_numbers=R, **kw),
+                                case.get("call_form"))
         except StreamExhausted as e:
             exc = "rejection loop did not finish: " + str(e)
         except Exception as e:
@@ -1158,6 +1299,9 @@ def do_public(run, drv, pending, case):
     if exc is not None:
         run.oracle_failure(case, f"{case['test']} raised {exc}")
         return None
+    touched = changed(owned, owned_names, fore.c06_source_array, fore.data, cat.catalog, R)
+    if touched:
+        run.oracle_failure(case, f"{case['test']} modified the caller's {touched}")
     fail = None
     if rec.missing:
         run.count(f"helper-missing:{module}._simulate_catalog")
@@ -1192,7 +1336,48 @@ def do_public(run, drv, pending, case):
     if not (any(math.isnan(float(s)) for s in sims) or math.isnan(float(ob))):
         i = drv.ask(f"c06_quantile {flist([fr_stat(s) for s in sims])} {frac(fr_stat(ob))}")
         pending.append(("quantile", case, i, (float(res.quantile), nsim)))
+    if case.get("repeat") and (rows is not None or seed is not None):
+        # ALIASING OF RETURNED OBJECTS: everything the public API handed out is overwritten in place, then the SAME call (same
+        # forecast / catalog objects, same random_numbers ARRAY, same seed) is repeated: nothing may change
+        first = result_key(res)
+        saved_td = [float(v) for v in res.test_distribution]
+        run.count("public-repeat-after-overwriting-returned-objects")
+        try:
+            td = res.test_distribution
+            if isinstance(td, list):
+                for k in range(len(td)):
+                    td[k] = -12345.0
+            else:
+                numpy.asarray(td)[...] = -12345.0
+            for arr in (fore.data, fore.spatial_counts(), fore.magnitude_counts(), cat.spatial_counts(), cat.magnitude_counts(),
+                        cat.spatial_magnitude_counts()):
+                a = numpy.asarray(arr)
+                if a.flags.writeable:
+                    a[...] = 7
+        except Exception as e:
+            run.count(f"public-repeat:could-not-overwrite:{type(e).__name__}")
+        try:
+            numpy.random.seed(case.get("ambient", 12345) + 1)
+            with capped_uniform(), contextlib.redirect_stdout(io.StringIO()):
+                res2 = call_form(fn, (fore, cat), dict(num_simulations=nsim, seed=seed_arg(case), random_numbers=R, **kw),
+                                 "keyword" if case.get("call_form") == "positional" else "positional")
+            if result_key(res2) != first:
+                run.oracle_failure(case, f"{case['test']}: the same call repeated on the same objects (after the arrays / lists the API "
+                                         "returned were overwritten by the caller) gives another result")
+        except StreamExhausted:
+            run.count("public-repeat:rejection-loop-too-long")
+        except Exception as e:
+            run.oracle_failure(case, f"{case['test']}: the repeated call raised {type(e).__name__}")
+        try:
+            td = res.test_distribution
+            for k in range(len(saved_td)):
+                td[k] = saved_td[k]
+        except Exception:
+            pass
     return res
+
+
+REF_SCALE = dict(v=0.0)
 
 
 def ref_stat(module, view, conditional, rates, Or, arr):
@@ -1211,13 +1396,18 @@ def ref_stat(module, view, conditional, rates, Or, arr):
                 logr = numpy.log(r)
             expected = n_fore
         idx = a > 0
-        return float(numpy.sum(logr[idx] * a[idx]) - sum(math.lgamma(v + 1.0) for v in a[idx]) - expected)
+        lg = sum(math.lgamma(v + 1.0) for v in a[idx])
+        REF_SCALE["v"] = float(numpy.sum(numpy.abs(logr[idx] * a[idx]))) + lg + abs(expected)     # size of the terms that cancel
+        return float(numpy.sum(logr[idx] * a[idx]) - lg - expected)
     y = (a > 0).astype(float)
     if module == "binary":
         if not numpy.all(r > 0):
             return None
-        return float(numpy.sum(y * numpy.log(1.0 - numpy.exp(-r)) + (1 - y) * (-r)))
+        terms = y * numpy.log(1.0 - numpy.exp(-r)) + (1 - y) * (-r)
+        REF_SCALE["v"] = float(numpy.sum(numpy.abs(terms)))
+        return float(numpy.sum(terms))
     prob = 1.0 - numpy.exp(-numpy.where(r > 0, r, 0.0))
+    REF_SCALE["v"] = 2.0
     return float(-2.0 * numpy.sum(numpy.square(prob - y)) / len(r))
 
 
@@ -1238,7 +1428,7 @@ def ref_simulate(rates, masked, row, loop_target=None):
         if k >= len(w):
             return None
         for b in (w[k - 1] if k else None, w[k]):
-            if b is not None and abs(r - b) <= 4 * numpy.spacing(max(abs(b), 1e-300)):
+            if b is not None and abs(r - b) <= (2 * wtol(len(w)) * abs(b) if PRECISION["single"] else 4 * numpy.spacing(max(abs(b), 1e-300))):
                 return None
         if loop_target is None:
             arr[k] += 1
@@ -1257,8 +1447,10 @@ def public_stat_oracle(run, case, module, view, conditional, rates, Or, fore, ro
     masked = module != "poisson"
     # never in a zero-rate bin, seen from outside: the log-likelihood of a simulated catalog is finite (an event in a bin of
     # rate 0 makes it -inf / nan) - theorem `sim_entries_finite` of C05 + `never_in_zero_rate_bin`
-    if module == "poisson" and all(v >= 0 for v in rates) and any(v > 0 for v in rates):
-        bad = [k for k, v in enumerate(dist) if math.isnan(v) or math.isinf(v)]
+    posr = [v for v in rates if v > 0]
+    if module == "poisson" and all(v >= 0 for v in rates) and posr and min(posr) >= 1e-290 and max(posr) <= 1e290:
+        # (rates near the ends of the float range are left out: there a scaled rate may underflow to 0 or overflow)
+        bad = [k for k, v in enumerate(dist) if math.isnan(v) or v == -math.inf]
         if bad and (rows is not None or seed is not None):
             return (f"entry {bad[0]} of the simulated distribution is {dist[bad[0]]!r}: a simulated catalog has an event in a "
                     f"zero-rate bin (or outside every bin)")
@@ -1315,7 +1507,9 @@ def public_stat_oracle(run, case, module, view, conditional, rates, Or, fore, ro
         if ref is None or math.isnan(ref) or math.isnan(val):
             continue
         run.count("public-path-oracle:entry-checked")
-        if not (val == ref or abs(val - ref) <= 1e-9 * max(abs(val), abs(ref)) + 1e-12):
+        # rounding of the forecast's precision acts on the TERMS of the sum, which may cancel: absolute part relative to their size
+        slack = (32 * _eps() if PRECISION["single"] else 1e-13) * REF_SCALE["v"]
+        if not (val == ref or abs(val - ref) <= stat_tol() * max(abs(val), abs(ref)) + slack + 1e-12):
             return (f"entry {idx} of the test distribution is {val!r}; the statistic of the catalog that the inverse-CDF placement "
                     f"of this simulation's random numbers gives is {ref!r}")
     return None
@@ -1414,7 +1608,8 @@ def default_path(run, drv, pending, case, mod, module, masked, conditional, rate
                 else:
                     ref = float(mod._brier_score_ndarray(F, numpy.array(call[3], dtype=float)))
                 val = float(res.test_distribution[idx])
-                if not (val == ref or (math.isnan(val) and math.isnan(ref)) or abs(val - ref) <= 1e-11 * max(abs(val), abs(ref))):
+                if not (val == ref or (math.isnan(val) and math.isnan(ref)) or
+                        abs(val - ref) <= (stat_tol() if PRECISION["single"] else 1e-11) * max(abs(val), abs(ref))):
                     run.oracle_failure(case, f"default random path: entry {idx} of the simulated distribution ({val!r}) is not the "
                                              f"statistic of the {idx}-th simulated catalog ({ref!r})")
                     return
@@ -1444,6 +1639,16 @@ def rng_model_ok(run):
             ok = False
         RNG_MODEL["ok"] = ok
         run.extra["rng_model_bitexact_with_numpy"] = ok
+        try:
+            drv = Driver()
+            qs = [(lam, sd, drv.ask(f"c06_poisson {bits(lam)} {sd} 40")) for lam in (0.7, 9.5, 10.0, 10.5, 37.25, 480.0, 12345.6)
+                  for sd in (0, 1, 2 ** 32 - 1, 987654321)]
+            out = drv.run()
+            good = sum(1 for lam, sd, i in qs if [int(v) for v in numpy.random.RandomState(sd).poisson(lam, size=40)] ==
+                       ([] if out[i] == "-" else [int(x) for x in out[i].split(",")]))
+            run.extra["poisson_sampler_model_agrees_with_numpy"] = f"{good}/{len(qs)}"
+        except Exception as e:
+            run.extra["poisson_sampler_model_agrees_with_numpy"] = f"not checked ({type(e).__name__})"
         if not ok:
             run.assumptions.append("Model/SamplerRng.lean does not reproduce this numpy's legacy generator: seed-only correspondence skipped")
     return RNG_MODEL["ok"]
@@ -1464,8 +1669,8 @@ def seeded_model(run, drv, pending, case, module, masked, conditional, rates, Or
         run.count("seed-only-model-poisson-conditional")
     elif not masked:
         lam = float(numpy.sum(fore.data))
-        if not (0.0 < lam < 10.0):
-            run.count("seed-only-model-l-test-skipped-mean>=10")
+        if not (0.0 < lam <= 3000.0) or lam * nsim > 20000:
+            run.count("seed-only-model-l-test-skipped-mean>3000")
             return
         enlam = math.exp(-lam)
         # the model's Poisson numbers must be numpy's (libm exp, multiplication method): validated without /repo
@@ -1475,9 +1680,14 @@ def seeded_model(run, drv, pending, case, module, masked, conditional, rates, Or
             n = int(gg.poisson(lam))
             ref_n.append(n)
             gg.random_sample(n)
-        i = drv.ask(f"c06_seeded_l {flist(rates)} {frac(Fraction(enlam))} {nsim} {int(seed)}")
+        if lam < 10.0:
+            i = drv.ask(f"c06_seeded_l {flist(rates)} {frac(Fraction(enlam))} {nsim} {int(seed)}")
+            run.count("seed-only-model-l-test")
+        else:
+            # numpy's PTRS sampler (Model/SamplerRng.lean `poissonFloat`, Float layer) draws the numbers of events
+            i = drv.ask(f"c06_seeded_lf {flist(rates)} {bits(lam)} {nsim} {int(seed)}")
+            run.count("seed-only-model-l-test-ptrs")
         pending.append(("seeded-model-l", case, i, (impl, [r[0] for r in rec], ref_n)))
-        run.count("seed-only-model-l-test")
     else:
         i = drv.ask(f"c06_seeded_m {flist(rates)} {obstxt} {nsim} {int(seed)} 4000")
         pending.append(("seeded-model-m", case, i, impl))
@@ -1486,6 +1696,7 @@ def seeded_model(run, drv, pending, case, module, masked, conditional, rates, Or
 
 def do_seed(run, drv, pending, case):
     """determinism: the same seed from two different ambient generator states gives the same result"""
+    set_precision(case)
     keys = []
     for ambient in (case["ambient_a"], case["ambient_b"]):
         c = dict(case, ambient=ambient, kind="public", rows=None)
@@ -1537,12 +1748,22 @@ def gen_public_case(rng, test=None, seeded=False):
     nx, ny, nm = rng.choice([(1, 1, 1), (2, 1, 2), (3, 2, 1), (3, 2, 3), (5, 2, 3), (4, 3, 2)])
     n = nx * ny * nm
     rates, style = gen_rates(rng, n, force_zero=rng.random() < 0.6)
-    if module == "poisson" and view != "cellmag":
-        pass
+    single = style not in ("subnormal", "huge", "integers") and rng.random() < 0.15
+    lowdt = None
+    if single:
+        lowdt = "float16" if style in ("uniform", "decimal", "equal") and rng.random() < 0.4 else "float32"
+        rates = [float(LOW[lowdt](v)) for v in rates]           # a low-precision forecast
+        if not any(v > 0 for v in rates):
+            rates[0] = 0.5
+    elif style == "integers" and rng.random() < 0.5:
+        lowdt = "int64"                                           # an integer-valued forecast stored as integers
+    set_precision(dict(rdtype=lowdt))
     nsim = rng.randint(1, 5)
-    nev = rng.choice([0, 1, 2, 3, 5, 8])
+    nev = rng.choice([0, 1, 2, 3, 5, 8] + ([9, 30, 600] if rng.random() < 0.08 else []))   # > 8 per bin, >= bins, > 500 events
     events = [[rng.randrange(nx * ny), rng.randrange(nm)] for _ in range(nev)]
     case = dict(kind="public", test=test, nx=nx, ny=ny, nm=nm, rates=hx(rates), events=events, nsim=nsim, style=style)
+    if lowdt:
+        case["rdtype"] = lowdt
     fore, cat = build_public(case)
     Fr, Or = public_inputs(case, fore, cat)
     masked = module != "poisson"
@@ -1588,6 +1809,8 @@ def gen_public_case(rng, test=None, seeded=False):
         # earlier calls on the same objects: Poisson-family tests (they always terminate; a seeded rejection loop may need
         # astronomically many draws on a forecast with a nearly empty cell)
         pool = ["likelihood_test", "conditional_likelihood_test", "spatial_test", "magnitude_test"]
+        if style == "huge":
+            pool = pool[1:]              # numpy.random.poisson refuses means beyond ~9.2e18 and needs memory for 1e16 events
         hist = []
         for _ in range(rng.randint(1, 3)):
             if rng.random() < 0.25:
@@ -1605,6 +1828,10 @@ def gen_public_case(rng, test=None, seeded=False):
             hist.insert(rng.randint(1, len(hist)), ["drop", rng.randint(1, len(events) - 1)])
         if not (not conditional and case.get("rows") is not None):
             case["history"] = hist
+    case["call_form"] = rng.choice(["keyword", "keyword", "positional"])
+    case["repeat"] = rng.random() < 0.3
+    if rng.random() < 0.25:
+        case["cat_class"] = "UCERF3Catalog"
     if case.get("seed") is not None:
         case["seed_form"] = pick_seed_form(rng)
     if case.get("rows") is not None:
@@ -1702,6 +1929,7 @@ def do_neartie(run, drv, pending, case):
 
 # ----------------------------------------------------------------------------- catalog magnitude tests (seed handling)
 def do_catalog_seed(run, drv, pending, case):
+    set_precision(case)
     from csep.core.catalog_evaluations import resampled_magnitude_test, MLL_magnitude_test
     from csep.core.catalogs import CSEPCatalog
     from csep.core.forecasts import CatalogForecast
@@ -1754,6 +1982,7 @@ def gen_catalog_seed_case(rng, seed):
 # ----------------------------------------------------------------------------- direct _simulate_catalog calls
 def do_direct(run, drv, pending, case):
     """the three `_simulate_catalog` functions called directly with given weights and draws"""
+    set_precision(case)
     mods = _mods()
     module = case["module"]
     mod = mods[module]
@@ -1765,6 +1994,8 @@ def do_direct(run, drv, pending, case):
     run.case(case, ("direct", module, tuple(case["rates"]), tuple(case["draws"])))
     run.count(f"direct-{module}")
     sim = numpy.full(w.shape, 7.0)  # stale content must be cleared
+    darr = numpy.array(draws)
+    owned = snap(w, darr)
     direct = getattr(mod, "_simulate_catalog", None)
     if direct is None or not callable(direct) or not _sig_ok(direct, mod):
         HELPER_MISSING.add(module + "_evaluations._simulate_catalog")
@@ -1772,13 +2003,16 @@ def do_direct(run, drv, pending, case):
         return
     try:
         if module == "brier":
-            out = mod._simulate_catalog(n, w, random_numbers=numpy.array(draws))
+            out = mod._simulate_catalog(n, w, random_numbers=darr)
         else:
-            out = mod._simulate_catalog(n, w, sim, random_numbers=numpy.array(draws))
+            out = mod._simulate_catalog(n, w, sim, random_numbers=darr)
         call = (n, w, numpy.array(draws), numpy.array(out).copy())
     except Exception as e:
         call = (n, w, numpy.array(draws), type(e).__name__)
     fail = oracle_call(rates, masked, call, n)
+    touched = changed(owned, ["sampling weights", "random numbers"], w, darr)
+    if touched:
+        fail = fail or f"_simulate_catalog modified the caller's {touched}"
     if fail:
         run.oracle_failure(case, fail)
     i = drv.ask(f"c06_run {'m' if masked else 'p'} {flist(rates)} {flist(draws)}")
@@ -1823,6 +2057,7 @@ def gen_big_case(rng, which):
 def do_big(run, drv, pending, case):
     """more than 65536 bins / more than 65535 events in one bin (and in one catalog): exact oracle only (bisect on the
     implementation's own float weights); the Lean ops are not asked (exact rational arithmetic on 70 000 weights is slow)"""
+    set_precision(case)
     import bisect
     mods = _mods()
     module = case["module"]
@@ -1944,6 +2179,10 @@ def run(run, rng, tier):
         case = gen_array_case(rng, tier, module=rng.choice(["binary", "brier"]), want_d10=True if k % 2 == 0 else "b")
         if case:
             DISPATCH["array"](run, drv, pending, case)
+    for module in ("poisson", "binary", "brier"):
+        for force_n in (129, 257):                  # just beyond numpy's summation block sizes, every run, every driver
+            DISPATCH["array"](run, drv, pending, gen_array_case(rng, tier, module=module, force_n=force_n))
+            run.count("array-size-beyond-block-boundary")
     for k in range(n_array):
         DISPATCH["array"](run, drv, pending, gen_array_case(rng, tier))
         if k % 200 == 199:
